@@ -611,6 +611,9 @@ def d13_points_in_given_order(ctx, fits, rule='C07-D7'):
 
 
 def run(ctx):
+    from . import C19 as _C19
+    ctx.rule('C07-D9' if False else 'C07-D19', 'prior strings value(error) are read exactly (shared evaluation with C19-D2)')
+    ctx.guarded('C07-D19', 'fits.py:_extract_val_and_dval', _C19.d2_prior, ctx, 'C07-D19')
     ctx.rule('C07-D1', 'layout agreement (concat | slices | Hessian block | data list | gradient row)')
     ctx.rule('C07-D2', 'implicit-function sign and Hessian')
     ctx.rule('C07-D3', 'dof, p-value, chisquare/dof, Hotelling')
